@@ -1,0 +1,5 @@
+// +build !verif
+
+package ed25519
+
+func verifFallback(offset, batchSize int) {}
